@@ -54,8 +54,8 @@ variable (S : PrintPrec) (cf : Const → Nat → Except SErr Pieces)
 
 theorem strG_subscript_nt (bare : Bool) (a i : Expr) (enc : Nat) (hi : ∀ cs, i ≠ .tuple cs) :
     strG S cf bare (.subscript a i) enc = (do
-      let ap ← strG S cf bare a S.call
       let ip ← strG S cf bare i S.none
+      let ap ← strG S cf bare a S.call
       pure (parenIf (ap ++ [sy "["] ++ ip ++ [sy "]"]) enc S.call)) := by
   rw [strG]
   intro cs h; exact hi cs h
